@@ -174,6 +174,8 @@ def run_drv(b, script_text, workdir, name="x", fork=False, timeout=300, env=None
     # driver run gets one of unset / "0" / "1", chosen from the script's content so that a run is reproducible
     e.pop("MTBL_READER_MADVISE_RANDOM", None)
     knob = (zlib_crc(script_text) >> 3) % 4
+    if os.environ.get("VERIF_KNOB"):         # self-test: force the knob (0 unset, 1 "0", 2 "1")
+        knob = int(os.environ["VERIF_KNOB"])
     if knob in (1, 2):
         e["MTBL_READER_MADVISE_RANDOM"] = str(knob - 1)
     if env:
